@@ -352,6 +352,7 @@ class Spec:
             self.serial += 1
             port, _ = c_strtol(argv[2], 10)
             c = Inst(cid, self.serial, argv[1], port & 0xffff, step, self.conf.timeout > 0)
+            c.timer_s = self.conf.timeout
             self.cur[cid] = c
             self.by_tag[c.tag] = c
             self.all.append(c)
@@ -417,14 +418,17 @@ class Spec:
                 self.in_kind = "timeout"
                 self.classes.add("timeout_with_debt" if c.owing else "timeout_no_debt")
 
-    def feed_sleep(self, step):
-        """Real time passed beyond the configured timeout: every live instance's timer has fired."""
+    def feed_sleep(self, step, secs=None):
+        """Real time passed: the timer of every live instance whose configured timeout is shorter than the wait has fired
+        (instances remember the timeout that was configured when they were announced)."""
         self.step = step
         self.in_kind = "timeout"
         self.in_client = None
         self.reply_ctx = None
         self.sleep_step = True
         for c in self.cur.values():
+            if secs is not None and c.has_timer and c.timer_s >= secs:
+                continue
             if c.live and c.has_timer and c.expired is None:
                 c.expired = step
                 self.classes.add("real_timer_fired")
